@@ -8,7 +8,7 @@ PROBE_LOG=$3/log
 __probe () {
     local uid=$1 cls=$2; shift 2
     printf '%s\x1f%s\x1f%s\x1f%s\n' "$uid" "$#" "$1" "$2" >> "$PROBE_LOG"
-    cat "$PROBE_DIR/$cls"
+    local __l; while IFS= read -r __l; do printf "%s\n" "$__l"; done < "$PROBE_DIR/$cls"
 }
 source "$1" 2>/dev/null
 __fn=$2
